@@ -27,6 +27,7 @@ func init() {
 	zzsv.Register("ZZ_C01_Index", ZZ_C01_Index)
 	zzsv.Register("ZZ_C01_UnaryLiterals", ZZ_C01_UnaryLiterals)
 	zzsv.Register("ZZ_C01_PrintedForms", ZZ_C01_PrintedForms)
+	zzsv.Register("ZZ_C01_NumericEdges", ZZ_C01_NumericEdges)
 }
 
 var zzBinOps = []string{"+", "-", "*", "/", "%", "**", "<", "<=", ">", ">=", "==", "!=", "~=", "!~", "in", ".."}
@@ -909,5 +910,47 @@ func ZZ_C01_PrintedForms(sv *zzsv.T) {
 		sv.Assert("C01.printed.in", zzSame(sv, out, zBool(false)))
 	default:
 		sv.Assert("C01.printed.float", out.Type() == object.FLOAT && out.Inspect() == pf(a*a))
+	}
+}
+
+// ZZ_C01_NumericEdges: int mixed with float is computed and compared in
+// float - also at the edges: the extreme integers, integers beyond 2^53,
+// whole floats outside the 64-bit range, infinities, the two zeros. Concrete
+// operands (the edge values), all comparison and arithmetic operators, both
+// operand orders, with and without the optimizer.
+func ZZ_C01_NumericEdges(sv *zzsv.T) {
+	ints := []int64{math.MinInt64, math.MaxInt64, math.MinInt64 + 1, 9007199254740993, -9007199254740993, 0, -1, 1, 4611686018427387904}
+	floats := []float64{-1e19, 1e19, -9223372036854775808.0, 9223372036854775808.0, 9223372036854775807.0, 9007199254740992.0, 9007199254740994.0, 0.0, math.Copysign(0, -1), 0.5, -1.0, math.Inf(1), math.Inf(-1), 4611686018427387904.0}
+	ops := []string{"==", "!=", "<", "<=", ">", ">=", "+", "-", "*", "/"}
+	i := ints[sv.Choice("int", len(ints))]
+	f := floats[sv.Choice("float", len(floats))]
+	op := ops[sv.Choice("op", len(ops))]
+	intFirst := sv.Choice("int_first", 2) == 1
+	var l, r zv
+	if intFirst {
+		l, r = zInt(i), zFloat(f)
+	} else {
+		l, r = zFloat(f), zInt(i)
+	}
+	src := "return a " + op + " b;"
+	sv.Note("script", src)
+	e := New(src)
+	e.SetVariable("a", l.obj())
+	e.SetVariable("b", r.obj())
+	if sv.Choice("noopt", 2) == 1 {
+		sv.Assume(e.Prepare([]byte{NoOptimize}) == nil)
+	} else {
+		sv.Assume(e.Prepare() == nil)
+	}
+	out, err := e.Execute(nil)
+	zzDescribe(sv, "result", out, err)
+	kind, want := zzSpecBinary(sv, op, l, r)
+	switch kind {
+	case kValue:
+		sv.Assert("C01.edges.value", err == nil && zzSame(sv, out, want))
+	case kError:
+		sv.Assert("C01.edges.error", err != nil)
+	default:
+		sv.Reach("C01.edges.unspec")
 	}
 }
